@@ -181,6 +181,18 @@ func c02Inputs(c *Ctx) (inputs [][]byte, tags []string) {
 		it2 := &LItem{Kind: "L", Kids: []*LItem{Nest(&LItem{Kind: "L", Kids: []*LItem{{Kind: "U", W: 1, Uints: []uint64{1}}, {Kind: "L"}}}, 63)}}
 		add(Build(it2, 0).ToBytes(), "sibling-depth") // 65th level reached by a later sibling that is an empty list
 	}
+	// many same-kind leaves in one decode (the decoder hands out leaf structs from chunked slabs: every chunk boundary
+	// and well beyond the largest chunk — after seeded change C02e-2, a slab cursor that wrapped at 256)
+	for _, n := range []int{85, 86, 213, 214, 341, 342, 343, 400, 600, 1000} {
+		for _, k := range []string{"I2", "U4", "F8", "A", "J", "W", "B", "O", "U1", "I8", "F4"} {
+			it := &LItem{Kind: "L"}
+			for i := 0; i < n; i++ {
+				leaf := GenLeaf(r, k, 1)
+				it.Kids = append(it.Kids, leaf)
+			}
+			add(Build(it.Normalize(), 0).ToBytes(), "many-leaves")
+		}
+	}
 	// nesting depth 63/64/65/66 of empty lists and of a leaf
 	for _, d := range []int{62, 63, 64, 65, 66, 70} {
 		var b []byte
